@@ -1124,6 +1124,7 @@ pub fn explore(cfg: &ExploreCfg, findings: &Findings, deadline: Option<std::time
     let mut level = 0usize;
     let mut last_rate: Option<f64> = None;
     let mut last_items = 0usize;
+    let mut last_level_secs = 0.0f64;
     st.fixpoint = false;
     while !frontier.is_empty() && level < cfg.max_len {
         if let Some(dl) = deadline {
@@ -1146,7 +1147,7 @@ pub fn explore(cfg: &ExploreCfg, findings: &Findings, deadline: Option<std::time
         // do not start a level that, at the rate measured on the previous one, cannot finish before the cap
         if let (Some(dl), Some(rate)) = (deadline, last_rate) {
             let remaining = dl.saturating_duration_since(std::time::Instant::now()).as_secs_f64();
-            if last_items >= 500 && items.len() as f64 * rate > remaining * 1.5 {
+            if (last_items >= 500 || last_level_secs > 20.0) && items.len() as f64 * rate > remaining * 1.5 {
                 level -= 1;
                 break;
             }
@@ -1186,7 +1187,13 @@ pub fn explore(cfg: &ExploreCfg, findings: &Findings, deadline: Option<std::time
             json!({"focus": cfg.focus.id(), "kind": kind.name(), "depth": cfg.depth, "positions": if cfg.full_obs { Value::Null } else { json!(cfg.positions) },
                    "hist": hist_json(&frontier[ni].hist), "op": cfg.ops[oi].to_json(), "model": model_to_json(&frontier[ni].model)})
         }).collect();
-        let remote_done = tree_pool().map_limited(&remote_reqs, max_parallel_for(cfg));
+        // a level that runs past the cap (plus a grace period) is abandoned as a whole: nothing of it is counted
+        let hard = deadline.map(|d| d + std::time::Duration::from_secs(120));
+        let remote_done = tree_pool().map_limited(&remote_reqs, max_parallel_for(cfg), hard);
+        if remote_done.iter().any(|r| matches!(r, Err(e) if e == "cap")) {
+            level -= 1;
+            break;
+        }
         let mut done: Vec<Option<Result<Option<(Judged, Option<Box<dyn Backend>>)>, String>>> = (0..items.len()).map(|_| None).collect();
         for (k, r) in local_idx.iter().zip(local_done.into_iter()) {
             done[*k] = Some(r);
@@ -1276,6 +1283,7 @@ pub fn explore(cfg: &ExploreCfg, findings: &Findings, deadline: Option<std::time
         if !items.is_empty() {
             last_rate = Some(level_t0.elapsed().as_secs_f64() / items.len() as f64);
             last_items = items.len();
+            last_level_secs = level_t0.elapsed().as_secs_f64();
         }
         st.max_depth = level;
         st.states_per_level.push(next_frontier.len() as u64);
